@@ -639,29 +639,32 @@ func c15R4(p *Prog, r *Report) {
 		walk(v)
 		return res
 	}
-	Instrs(dec, func(in ssa.Instruction) {
-		if arg, w, ok := fixedRead(in); ok {
-			if off, ok := hdrOf(arg); ok {
-				rs = append(rs, rd{off, w, fieldStoredFrom(in.(ssa.Value))})
+	decFns := append([]*ssa.Function{dec}, c15HdrHelpers(dec)...)
+	for _, df := range decFns {
+		Instrs(df, func(in ssa.Instruction) {
+			if arg, w, ok := fixedRead(in); ok {
+				if off, ok := hdrOf(arg); ok {
+					rs = append(rs, rd{off, w, fieldStoredFrom(in.(ssa.Value))})
+				}
 			}
-		}
-		if u, ok := in.(*ssa.UnOp); ok && u.Op == token.MUL {
-			if ia, ok := u.X.(*ssa.IndexAddr); ok {
-				if isHdrBuf(ia.X) {
-					if k, ok := constInt(ia.Index); ok {
-						rs = append(rs, rd{k, 1, fieldStoredFrom(u)})
+			if u, ok := in.(*ssa.UnOp); ok && u.Op == token.MUL {
+				if ia, ok := u.X.(*ssa.IndexAddr); ok {
+					if isHdrBuf(ia.X) {
+						if k, ok := constInt(ia.Index); ok {
+							rs = append(rs, rd{k, 1, fieldStoredFrom(u)})
+						}
 					}
 				}
 			}
-		}
-	})
+		})
+	}
 	sort.Slice(rs, func(i, j int) bool { return rs[i].off < rs[j].off })
 	off := int64(0)
 	for i, w := range ws {
 		var match *rd
 		for k := range rs {
-			if rs[k].off == off {
-				match = &rs[k]
+			if rs[k].off == off && (match == nil || match.what != w.what || match.size != w.size) {
+				match = &rs[k] // a slot read more than once (tested, then stored): the read that is stored decides
 			}
 		}
 		name := fmt.Sprintf("header slot %d (%s, %d bytes at offset %d)", i, w.what, w.size, off)
@@ -728,9 +731,36 @@ func c15R4(p *Prog, r *Report) {
 	}
 }
 
+// c15HdrParams: parameters of helpers of the decoder that receive the 16-byte header buffer.
+var c15HdrParams = map[*ssa.Parameter]bool{}
+
+// c15HdrHelpers: the module helpers the decoder hands its header buffer to (whole, not a window).
+func c15HdrHelpers(dec *ssa.Function) []*ssa.Function {
+	var out []*ssa.Function
+	Instrs(dec, func(in ssa.Instruction) {
+		cc := CallOf(in)
+		if cc == nil || cc.IsInvoke() {
+			return
+		}
+		h := cc.StaticCallee()
+		if !isModuleFn(h) || len(h.Params) != len(cc.Args) || len(h.Blocks) == 0 {
+			return
+		}
+		for i, a := range cc.Args {
+			if _, isPrm := a.(*ssa.Parameter); !isPrm && isHdrBuf(a) {
+				c15HdrParams[h.Params[i]] = true
+				out = append(out, h)
+			}
+		}
+	})
+	return out
+}
+
 // isHdrBuf: the 16-byte header buffer made at the start of the decoder.
 func isHdrBuf(v ssa.Value) bool {
 	switch x := v.(type) {
+	case *ssa.Parameter:
+		return c15HdrParams[x]
 	case *ssa.MakeSlice:
 		n, ok := constInt(x.Len)
 		return ok && n == 16
